@@ -3,7 +3,7 @@
 # (apply; full test-suite must show only the 6 baseline failures; demo must fail; revert; demo must pass), then file it
 # under /verif/seeded/<PROP>_<X>/ (patch.diff, demo.py, notes.md, meta.json).
 set -u
-ID="$1"; X="$2"; WT="/tmp/wt/$ID"; OUT="$WT/out"
+ID="$1"; X="$2"; SUF="${3:-}"; NAME="${4:-$X}"; WT="/tmp/wt/$ID$SUF"; OUT="$WT/out"
 cd "$WT" || exit 2
 git checkout -q -- . 
 git apply "$OUT/$X.diff" || { echo "$ID $X: patch does not apply"; exit 1; }
@@ -14,9 +14,9 @@ git checkout -q -- .
 PYTHONPATH="$WT" /venv/bin/python "$OUT/demo_$X.py" >/tmp/wt/demo_$ID$X.clean.log 2>&1; RC_CLEAN=$?
 echo "$ID $X: suite='$T' failed_tests=$FAILS demo_with_patch_rc=$RC_MUT demo_clean_rc=$RC_CLEAN"
 if [ "$FAILS" = "6" ] && [ "$RC_MUT" != "0" ] && [ "$RC_CLEAN" = "0" ]; then
-  D="/verif/seeded/${ID}_$X"; mkdir -p "$D"
+  D="/verif/seeded/${ID}_$NAME"; mkdir -p "$D"
   cp "$OUT/$X.diff" "$D/patch.diff"; cp "$OUT/demo_$X.py" "$D/demo.py"; cp "$OUT/notes_$X.md" "$D/notes.md"
-  python3 - "$ID" "$X" "$T" "$RC_MUT" "$RC_CLEAN" <<'PY'
+  python3 - "$ID" "$NAME" "$T" "$RC_MUT" "$RC_CLEAN" <<'PY'
 import json,sys
 ID,X,T,rm,rc=sys.argv[1:6]
 d="/verif/seeded/%s_%s"%(ID,X)
